@@ -447,4 +447,93 @@ theorem crash_run {cfg : Cfg} (hok : cfg.Ok) (M : List Nat) (adr : Nat → Nat) 
           rw [hnum]
           simpa using hdl
 
+/-! ## The token holder stops for good: the survivor waits for its token-lost time-out -/
+
+/-- **Quiet-survivor invariant**: station `j` (record `st`) is idle and up to date — everything that was ever
+transmitted by others has been delivered to it completely, its buffer is empty — with stamp `l`. -/
+structure QInv (cfg : Cfg) (M : List Nat) (adr : Nat → Nat) (n : Net) (j : Nat) (st : NetStation) (l : Int) : Prop where
+  ring : RingCfg M adr n.stations.length
+  jlt : j < n.stations.length
+  gj : n.stations[j]? = some st
+  okj : StOkN cfg M st (adr j)
+  log : LogOk cfg M adr n.stations.length n.bus
+  done : ∀ o ∈ n.bus.txs, o.sender = j ∨ cEnd cfg o ≤ n.bus.seen.getD j 0
+  own : ∀ o ∈ n.bus.txs, o.sender = j → cEnd cfg o ≤ l + 1
+  pb : st.s.pendingBytes = 0
+  rx : st.rx = []
+  idle : ∃ np coll, st.s.st = .activeIdle none np coll
+  stamp : st.s.lastBusActivity = some l
+  lseen : l ≤ n.bus.seen.getD j 0
+
+/-- A listener of the stable ring that is idle and has been polled after the end of every transmission
+satisfies the quiet-survivor invariant. -/
+theorem QInv.ofNInv {cfg : Cfg} {M : List Nat} {adr : Nat → Nat} {n : Net} {v : NView} (h : NInv cfg M adr n v)
+    (hok : cfg.Ok) (j : Nat) (hj : j < n.stations.length) (hjx : j ≠ v.x) (st : NetStation) (hst : n.stations[j]? = some st)
+    (hidle : ∃ np coll, st.s.st = .activeIdle none np coll)
+    (hall : ∀ t ∈ n.bus.txs, cEnd cfg t ≤ n.bus.seen.getD j 0)
+    (hstamp : ∀ l, st.s.lastBusActivity = some l → l ≤ n.bus.seen.getD j 0) :
+    ∃ l, QInv cfg M adr n j st l := by
+  obtain ⟨st', hst', hL⟩ := h.lis j hj hjx
+  rw [hst] at hst'
+  cases hst'
+  obtain ⟨hokS, dn, rs, idle, l, h1, h2, h3, h4, h5, h0, h6, h7, h8, h9, hF, h10⟩ := hL
+  have hrs : rs = [] := by
+    cases rs with
+    | nil => rfl
+    | cons t rest =>
+      exfalso
+      have hm : t ∈ n.bus.txs := by rw [h1]; simp
+      have hpos := (TxKind.wire h.ring (h.log.kinds t hm)).2.2
+      have hfull := cvis_full cfg t (n.bus.seen.getD j 0) hpos (hall t hm)
+      have := h6 t rest rfl
+      omega
+  subst hrs
+  have hl : l ≤ n.bus.seen.getD j 0 := hstamp l h7
+  simp only [arrived, List.map_nil, List.flatten_nil, List.length_nil] at h4 h5
+  exact ⟨l, h.ring, hj, hst, hokS, h.log, by rw [h1, List.append_nil]; exact h2, h0, by omega, h4, hidle, h7, hl⟩
+
+/-- **The quiet survivor is polled before its token-lost time-out**: nothing happens. -/
+theorem quiet_wait {cfg : Cfg} {M : List Nat} {adr : Nat → Nat} {n : Net} {j : Nat} {st : NetStation} {l : Int}
+    (h : QInv cfg M adr n j st l) (hok : cfg.Ok) (now : Int) (hown : n.bus.seen.getD j 0 < now)
+    (hw : now < l + (st.s.p.tokenLostTimeout : Nat)) :
+    ∃ n' c, n.poll j now = (n', [], some (.ok c)) ∧ c.tx = none ∧ QInv cfg M adr n' j st l := by
+  have hjs : j < n.bus.seen.length := by rw [h.log.seen]; exact h.jlt
+  obtain ⟨inc, hd, hcat⟩ := listener_deliver h.ring h.log hok.rate j now n.bus.txs [] (by simp) h.done
+    (fun t ht => by cases ht) (Int.le_of_lt hown)
+  simp only [arrived, List.map_nil, List.flatten_nil, List.nil_append] at hcat
+  subst hcat
+  have hlt : l < now := by have := h.lseen; omega
+  have hphy := transmitting_listener cfg M adr _ n.bus h.log j l now h.own hlt
+  obtain ⟨np, coll, hst⟩ := h.idle
+  have hto : 0 < st.s.p.tokenLostTimeout := by have := h.okj.tto; omega
+  have hp := idle_poll_partialA st.s st.apps now [] [] false np coll l h.okj.son hst h.stamp hlt hto (.inr hw) receiveAll_nil
+  simp only [List.length_nil, checkBus_nil] at hp
+  have hp' : st.s.poll st.apps now (Bus.transmitting { n.bus with seen := n.bus.seen.set j now } j now)
+      (st.rx ++ []) = .ok { s := st.s, apps := st.apps, rx := [] } := by rw [transmitting_seen, h.rx, hphy]; exact hp
+  have hpe := Net.poll_eq n j now st _ [] _ h.gj h.okj.alive h.okj.online hd hp'
+  have hsame : ({ st with s := st.s, apps := st.apps, rx := [] } : NetStation) = st := by
+    rw [← h.rx]
+  simp only at hpe
+  rw [hsame] at hpe
+  refine ⟨_, _, hpe, rfl, ?_⟩
+  refine ⟨by simp only [List.length_set]; exact h.ring, by simp only [List.length_set]; exact h.jlt,
+    List.getElem?_set_self h.jlt, h.okj, by simp only [List.length_set]; exact h.log.seenSet j now, ?_, h.own, h.pb, h.rx,
+    ⟨np, coll, hst⟩, h.stamp, ?_⟩
+  · intro o ho
+    simp only
+    rw [seen_set_self _ _ _ hjs]
+    exact (h.done o ho).imp id (fun hh => by omega)
+  · simp only; rw [seen_set_self _ _ _ hjs]; omega
+
+/-- What the bus hands to the quiet survivor at the poll of its time-out: nothing; its PHY is idle. -/
+theorem quiet_deliver {cfg : Cfg} {M : List Nat} {adr : Nat → Nat} {n : Net} {j : Nat} {st : NetStation} {l : Int}
+    (h : QInv cfg M adr n j st l) (hok : cfg.Ok) (now : Int) (hown : n.bus.seen.getD j 0 < now) :
+    n.bus.deliver j now = ({ n.bus with seen := n.bus.seen.set j now }, []) ∧ n.bus.transmitting j now = false := by
+  obtain ⟨inc, hd, hcat⟩ := listener_deliver h.ring h.log hok.rate j now n.bus.txs [] (by simp) h.done
+    (fun t ht => by cases ht) (Int.le_of_lt hown)
+  simp only [arrived, List.map_nil, List.flatten_nil, List.nil_append] at hcat
+  subst hcat
+  have hlt : l < now := by have := h.lseen; omega
+  exact ⟨hd, transmitting_listener cfg M adr _ n.bus h.log j l now h.own hlt⟩
+
 end PV
